@@ -290,3 +290,31 @@ package arvados
 //@   ensures err != nil ==> err == ErrNegativeOffset && f.ptr == old(f.ptr) && pos == old(f.ptr.off)
 //@   ensures err == nil ==> pos >= 0 && f.ptr.off == pos && (pos != old(f.ptr.off) ==> f.ptr.repacked == 0 - 1)
 //@   ensures whence == 0 && off < 0 ==> err != nil
+
+//@ iface inode.Child
+//@   modifies all
+//@ iface inode.Truncate
+//@   modifies all
+//@ iface inode.IsDir pure
+//@   modifies nothing
+//@ iface inode.Parent
+//@   modifies nothing
+//@ func rlookup trusted
+//@   modifies nothing
+
+// openFile: the access mode of the handle is decoded from the low two flag
+// bits; O_SYNC is refused; a missing file without O_CREATE is os.ErrNotExist;
+// an existing one with O_EXCL is ErrFileExists; O_TRUNC truncates only
+// writable, non-exclusive opens of existing files; O_APPEND is recorded.
+//@ func fileSystem.openFile property C08 safety -bounds
+//@   ghost found bool = false
+//@   ghost missing bool = false
+//@   calls inode.Child#1: set found = ($r0 != nil && $r1 == nil)
+//@   calls inode.Child#1: set missing = ($r0 == nil && $r1 == nil)
+//@   calls inode.Truncate#1: requires found && flag & os.O_TRUNC != 0 && flag & os.O_EXCL == 0 && (flag & 3 == os.O_RDWR || flag & 3 == os.O_WRONLY) && $0 == 0
+//@   ensures flag & os.O_SYNC != 0 ==> result1 == ErrSyncNotSupported && result0 == nil
+//@   ensures result1 == nil ==> (result0.writable ==> flag & 3 == os.O_RDWR || flag & 3 == os.O_WRONLY) && (result0.readable ==> flag & 3 == os.O_RDWR || flag & 3 == os.O_RDONLY)
+//@   ensures result1 == nil && (flag & 3 == os.O_RDWR || flag & 3 == os.O_WRONLY) ==> result0.writable && result0.append == (flag & os.O_APPEND != 0) && result0.readable == (flag & 3 == os.O_RDWR)
+//@   ensures found && flag & os.O_EXCL != 0 ==> result1 == ErrFileExists
+//@   ensures missing && flag & os.O_CREATE == 0 ==> result1 == os.ErrNotExist
+//@   ensures flag & 3 == 3 ==> result1 != nil
